@@ -117,6 +117,11 @@ impl BaudEmulation {
     }
 }
 
+/// Macros may invoke macros; a macro that (indirectly) invokes itself would recurse forever.
+const MAX_MACRO_DEPTH: usize = 8;
+/// Upper bound for the characters replayed by one top-level macro invocation (nested invocations multiply).
+const MAX_MACRO_EXPANSION: usize = 1 << 16;
+
 pub struct Parser {
     pub(crate) state: EngineState,
     saved_pos: Position,
@@ -143,6 +148,8 @@ pub struct Parser {
     pub parse_string: String,
     pub macro_dcs: String,
     pub bs_is_ctrl_char: bool,
+    macro_depth: usize,
+    macro_budget: usize,
 }
 
 impl Default for Parser {
@@ -165,6 +172,8 @@ impl Default for Parser {
             last_char: '\0',
             hyper_links: Vec::new(),
             bs_is_ctrl_char: false,
+            macro_depth: 0,
+            macro_budget: 0,
         }
     }
 }
@@ -1463,11 +1472,24 @@ impl Parser {
         } else {
             return;
         };
+        if self.macro_depth >= MAX_MACRO_DEPTH {
+            log::error!("Macro nesting too deep, macro {} not invoked", id);
+            return;
+        }
+        if self.macro_depth == 0 {
+            self.macro_budget = MAX_MACRO_EXPANSION;
+        }
+        self.macro_depth += 1;
         for ch in m.chars() {
+            if self.macro_budget == 0 {
+                break;
+            }
+            self.macro_budget -= 1;
             if let Err(err) = self.print_char(buf, current_layer, caret, ch) {
                 log::error!("Error during macro invocation: {}", err);
             }
         }
+        self.macro_depth -= 1;
     }
 
     fn execute_aps_command(&self, _buf: &mut Buffer, _caret: &mut Caret) {
